@@ -81,7 +81,10 @@ func NewCodeUtils(log backend.LogFunc) *CodeUtils {
 		scopeCache:    make(map[*parser.Thrift]*Scope),
 		useTemplate:   defaultTemplate,
 		alternative:   templates.Alternative(),
+		doInitialisms: true,
 	}
+	// naming styles are shared objects: start from the documented default whatever an earlier instance selected
+	cu.namingStyle.UseInitialisms(cu.doInitialisms)
 	return cu
 }
 
